@@ -1,11 +1,54 @@
 /-
-C19 — incremental serializer histories produce valid serializations (PARTIAL: protocol model with
-`find_path` as a validated policy; see `ClvmModel/Serde/Incremental.lean` for what is not modelled).
+C19 — incremental serializer histories produce valid serializations.  **PARTIAL.**
+
+The theorems are about the *protocol model* `ClvmModel/Serde/Incremental.lean` of
+`src/serde/incremental.rs`: `Serializer::add` / `restore` are transcribed, `TreeCache` is abstracted to
+the mirror of its parse stack, and `TreeCache::find_path` beyond its early exits is a **policy**
+parameter (salted SHA-1 identities, `node_map`, parent links with 8-entry eviction, `serialized_nodes`,
+the lock-step breadth-first search are *not modelled*; see the model's header for the full list,
+including the `expect`/`assert!` sites that therefore have no outcome).  Helper lemmas:
+`Lemmas/Incremental.lean` (cursor, append-only, `Ext`, exact restore), `Lemmas/IncrementalDecode.lean`
+(forward lock-step with the decoder, the assembled tree), `Lemmas/IncrementalRun.lean` (state and
+history invariants), `Lemmas/IncrementalValidate.lean` (the checked replay policy),
+`Lemmas/IncrementalWitness.lean` (recorded runs of the real crate).
+
+What is proved.
+* `undo_exact`, `output_append_only`, `add_returns_undo_state`: for **every** policy (valid or not — so
+  also for whatever the real `find_path` does): between taking an undo state and restoring it the
+  output only grows, and `restore` gives back the *whole* model state (bytes, position, both stacks,
+  cache checkpoint).
+* `complete_decodes_partial`: for every history of `add`/`undo` calls whose policies are `Valid`
+  (every returned path leads from the parse-stack mirror to a node equal to the requested one): once
+  `add` reports completion, both decoders return the tree assembled from the retained additions (each
+  later addition at the leftmost remaining sentinel), consuming exactly the output — unless the
+  decoder's allocator hits a limit.  *Partial* because validity of the real `find_path` is a
+  hypothesis, not a theorem.
+* `replay_checked_valid`, `validate_sound`: the correspondence stream discharges that hypothesis *per
+  run*: `validate` re-runs the model with the policy "what the recorded bytes show, if it is a valid
+  path"; that policy is valid by construction, so whenever `validate` accepts a recorded run of the
+  real serializer, `complete_decodes_partial` applies to those very bytes.
+* The salt (`TreeCache::salt`, `RandomState`) does not occur in the model; run-to-run equality of the
+  real serializer's bytes is checked by the oracle (`inc_salt_independent`) and by the implementation
+  side of the stream (a re-run with a new salt must reproduce the recorded bytes).
+
+Known findings L, M, N (KNOWN_FINDINGS.jsonl).  On the unchanged tree the real `find_path` is **not**
+a valid policy: after an addition with two sentinels (L), after a `restore` followed by another `add`
+(M), and when a node with the sentinel below it is used twice (N) it returns paths to *other* nodes.
+That is exactly the hypothesis of `complete_decodes_partial`, so the protocol model cannot exhibit the
+defects by itself (it has no parent links that could go stale).  What the Lean side carries instead:
+`Statement` (the property without the validity hypothesis, a `def`, not a theorem), `statement_partial`
+(= `complete_decodes_partial`), and `finding_L_witness`, `finding_M_witness`, `finding_N_witness`:
+for the recorded run of the unchanged crate (i) the model under the *unchecked* replay policy
+reproduces the crate's bytes and verdicts exactly, (ii) `validate` rejects the run with
+`invalid-backref`, (iii) the offending path, resolved against the parse stack of that moment, yields
+another node than the requested one.  A formal `¬ Statement` is not derived: it would need the value of
+the lexicographically-terminating decoders on concrete bytes, which the kernel does not reduce; the
+decoded (wrong) trees are in KNOWN_FINDINGS.jsonl and are recomputed by the oracle on every run.
 -/
-import ClvmModel.Serde.Incremental
+import ClvmProofs.Lemmas.IncrementalWitness
 
 namespace Clvm.Props.C19
-open Clvm Clvm.Serde Clvm.Serde.Incremental
+open Clvm Clvm.Serde Clvm.Serde.Incremental Clvm.Serde.Backref Clvm.Incremental Clvm.Backref
 
 /-- the incremental serializer and the back-reference decoders use the same two markers -/
 theorem markers_agree : Gen.incBackReference = Gen.deBrBackReference ∧
@@ -17,5 +60,195 @@ theorem restore_installs (s : Ser) (u : UndoState) :
     (s.restore u).readOpStack = u.readOpStack ∧ (s.restore u).writeStack = u.writeStack ∧
     (s.restore u).cache.root = u.treeCache ∧ (s.restore u).output.buf = s.output.buf.take u.outputPosition ∧
     (s.restore u).output.pos = u.outputPosition := ⟨rfl, rfl, rfl, rfl, rfl⟩
+
+/-- the undo state `add` returns is the state it was called in; `add` only appends (any policy) -/
+theorem add_returns_undo_state (sentinel : Option Bytes) (s s' : Ser) (fp : FindPath) (t : Tree) (d : Bool)
+    (u : UndoState) (hs : Ext (Ser.new sentinel) s) (h : s.add fp t = .ok (s', d, u)) :
+    u = s.undoState ∧ ∃ suffix, s'.getRef = s.getRef ++ suffix ∧ s'.size = s.size + suffix.length := by
+  obtain ⟨hc, _, _⟩ := ext_spec hs rfl
+  obtain ⟨hu, hc', _, sfx, hb⟩ := add_appends h hc
+  refine ⟨hu, sfx, hb, ?_⟩
+  unfold Ser.size
+  unfold CurOk at hc hc'
+  rw [hc, hc', hb, List.length_append]
+
+/-- **Output is append-only between** (any policies): every state reached from `b` without restoring
+an undo state older than `b` extends `b`'s bytes. -/
+theorem output_append_only (sentinel : Option Bytes) (b s : Ser) (hb : Ext (Ser.new sentinel) b) (h : Ext b s) :
+    ∃ suffix, s.getRef = b.getRef ++ suffix := by
+  obtain ⟨hc, _, _⟩ := ext_spec hb rfl
+  exact (ext_spec h hc).2.2
+
+/-- **`undo_exact`** (any policies, valid or not): restoring the undo state taken at `b` — after any
+calls of `add` and any `restore`s of still-valid later undo states — gives back the state `b` itself:
+the output bytes and position, both stacks and the cache checkpoint. -/
+theorem undo_exact (sentinel : Option Bytes) (b s : Ser) (hb : Ext (Ser.new sentinel) b) (h : Ext b s) :
+    s.restore b.undoState = b := by
+  obtain ⟨hc, _, _⟩ := ext_spec hb rfl
+  exact restore_exact hc h
+
+/-- the same for a caller's bookkeeping (`Run`: the undo states of the retained additions): in a history
+with valid policies, `undo k` puts the serializer back into the state in which the k-th retained
+addition was made, drops the additions k.. and the output shrinks to a prefix. -/
+theorem run_undo_exact_partial (sentinel : Option Bytes) (steps : List Step) (r r' : Run) (k : Nat)
+    (hvalid : ∀ st ∈ steps, StepValid st) (hrun : (Run.new sentinel).steps steps = .ok r)
+    (hundo : r.step (.undo k) = .ok r') :
+    ∃ b : Ser, r.undos[k - 1]? = some b.undoState ∧ r'.s = b ∧ Ext b r.s ∧ r'.trees = r.trees.take (k - 1) ∧
+      ∃ suffix, r.s.getRef = r'.s.getRef ++ suffix := by
+  obtain ⟨_, bs, hund, _, hb, _⟩ := steps_inv steps _ r (runInv_new sentinel) hvalid hrun
+  simp only [Run.step] at hundo
+  split at hundo
+  · cases hundo
+  · cases hu : r.undos[k - 1]? with
+    | none => simp [hu] at hundo
+    | some u =>
+      simp only [hu, Except.ok.injEq] at hundo
+      subst hundo
+      rw [hund, List.getElem?_map] at hu
+      cases hbk : bs[k - 1]? with
+      | none => simp [hbk] at hu
+      | some b =>
+        simp only [hbk, Option.map_some, Option.some.injEq] at hu
+        subst hu
+        obtain ⟨gb, eb⟩ := hb (k - 1) b hbk
+        have hrest : r.s.restore b.undoState = b := restore_exact gb.cur eb
+        refine ⟨b, rfl, hrest, eb, rfl, ?_⟩
+        show ∃ suffix, r.s.getRef = (r.s.restore b.undoState).getRef ++ suffix
+        rw [hrest]
+        exact (ext_spec eb gb.cur).2.2
+
+/-- **`complete_decodes_partial`**: for every history whose policies are valid, once `add` has reported
+completion the output decodes — with the current and with the legacy back-reference decoder, followed
+by any bytes `rest`, from any allocator state — to the tree assembled from the retained additions,
+which has no sentinel left, and exactly the output is consumed; the only other outcome is an allocator
+limit of the decoder.  `into_inner` is then allowed.  PARTIAL: validity of the real `find_path` is
+the hypothesis `hvalid` (checked per run by the stream, violated in the regions of findings L, M, N). -/
+theorem complete_decodes_partial (sentinel : Option Bytes) (steps : List Step) (r : Run)
+    (hvalid : ∀ st ∈ steps, StepValid st) (hrun : (Run.new sentinel).steps steps = .ok r)
+    (hdone : r.done = true) :
+    ∃ A, assemble sentinel r.trees = some A ∧ noSentinel sentinel A = true ∧
+      r.s.intoInner = .ok r.s.getRef ∧
+      ∀ (rest : Bytes) (c : Ctr), c.pairs + c.ghostPairs ≤ Gen.maxNumPairs →
+        ((∃ e, deBrOld (r.s.getRef ++ rest) [.sexp] Tree.nil c = .error e ∧ limitErr e) ∨
+          ∃ c', deBrOld (r.s.getRef ++ rest) [.sexp] Tree.nil c = .ok (A, rest, c')) ∧
+        ((∃ e, deBrNew (r.s.getRef ++ rest) [.sexp] [] c = .error e ∧ limitErr e) ∨
+          ∃ c', deBrNew (r.s.getRef ++ rest) [.sexp] [] c = .ok (A, rest, c')) := by
+  have hi := steps_inv steps _ r (runInv_new sentinel) hvalid hrun
+  have hg := hi.good
+  rw [hdone] at hg
+  obtain ⟨A, h1, h2, h3, _, h5⟩ := good_done_decodes hg
+  refine ⟨A, h1, h2, ?_, h5⟩
+  unfold Ser.intoInner
+  rw [h3]; rfl
+
+/-- the policy the validation stream uses — "answer what the recorded bytes show, if that is an
+admissible path for the current parse-stack mirror" — is valid by construction -/
+theorem replay_checked_valid (rec : Bytes) : Valid (replayChecked rec) := replayChecked_valid rec
+
+/-- **`validate_sound`**: if `validate` accepts the recorded outputs of a completed history, then the
+final recorded bytes decode (both decoders, any continuation, any allocator state short of its limits)
+to the tree assembled from the retained additions — the run-time decode check of `validate` is a
+theorem about every accepted run, not only a test with the default allocator. -/
+theorem validate_sound (sentinel : Option Bytes) (steps : List (Req × Rec)) (r : Run)
+    (h : validate sentinel steps = .ok r) (hdone : r.done = true) :
+    ∃ A, assemble sentinel r.trees = some A ∧ noSentinel sentinel A = true ∧
+      ∀ (rest : Bytes) (c : Ctr), c.pairs + c.ghostPairs ≤ Gen.maxNumPairs →
+        ((∃ e, deBrOld (r.s.getRef ++ rest) [.sexp] Tree.nil c = .error e ∧ limitErr e) ∨
+          ∃ c', deBrOld (r.s.getRef ++ rest) [.sexp] Tree.nil c = .ok (A, rest, c')) ∧
+        ((∃ e, deBrNew (r.s.getRef ++ rest) [.sexp] [] c = .error e ∧ limitErr e) ∨
+          ∃ c', deBrNew (r.s.getRef ++ rest) [.sexp] [] c = .ok (A, rest, c')) := by
+  have hg := (validate_inv h).good
+  rw [hdone] at hg
+  obtain ⟨A, h1, h2, _, _, h5⟩ := good_done_decodes hg
+  exact ⟨A, h1, h2, h5⟩
+
+/-! ### the unconditional statement and the known findings -/
+
+/-- The property at full strength in the protocol model: `complete_decodes_partial` *without* the
+validity hypothesis, i.e. for whatever `find_path` answers.  It is what C19 claims of the real
+serializer (whose `find_path` is one particular family of policies).  It is **not** a theorem: an
+arbitrary policy may answer with a path to another node, and on the unchanged tree the real
+`find_path` does so in the regions of findings L, M, N (witnesses below). -/
+def Statement : Prop :=
+  ∀ (sentinel : Option Bytes) (steps : List Step) (r : Run),
+    (Run.new sentinel).steps steps = .ok r → r.done = true →
+    ∃ A, assemble sentinel r.trees = some A ∧ noSentinel sentinel A = true ∧
+      ∀ (rest : Bytes) (c : Ctr), c.pairs + c.ghostPairs ≤ Gen.maxNumPairs →
+        (∃ e, deBrNew (r.s.getRef ++ rest) [.sexp] [] c = .error e ∧ limitErr e) ∨
+          ∃ c', deBrNew (r.s.getRef ++ rest) [.sexp] [] c = .ok (A, rest, c')
+
+/-- the statement holds for all histories with valid policies -/
+theorem statement_partial (sentinel : Option Bytes) (steps : List Step) (r : Run)
+    (hvalid : ∀ st ∈ steps, StepValid st) (hrun : (Run.new sentinel).steps steps = .ok r)
+    (hdone : r.done = true) :
+    ∃ A, assemble sentinel r.trees = some A ∧ noSentinel sentinel A = true ∧
+      ∀ (rest : Bytes) (c : Ctr), c.pairs + c.ghostPairs ≤ Gen.maxNumPairs →
+        (∃ e, deBrNew (r.s.getRef ++ rest) [.sexp] [] c = .error e ∧ limitErr e) ∨
+          ∃ c', deBrNew (r.s.getRef ++ rest) [.sexp] [] c = .ok (A, rest, c') := by
+  obtain ⟨A, h1, h2, _, h4⟩ := complete_decodes_partial sentinel steps r hvalid hrun hdone
+  exact ⟨A, h1, h2, fun rest c hc => (h4 rest c hc).2⟩
+
+/-- the bytes and the verdict of a model run -/
+def outcome (x : Except Err Run) : Option (Bytes × Bool) :=
+  match x with
+  | .ok r => some (r.s.getRef, r.done)
+  | .error _ => none
+
+open Witness in
+/-- **Finding L** (an addition with two sentinels), recorded run of the unchanged crate
+(`INC c9 …`): (1) the protocol model driven by the policy read off the recorded bytes (`replay`,
+unchecked) reproduces exactly the crate's bytes and verdicts — the recorded run *is* a behaviour of the
+model under some policy; (2) that policy is not valid: the validator rejects the run at a
+back-reference; (3) concretely, `fe 06` is written for `x` when the parse stack is
+`[(a . x), (a . y)]`, and `traverse_path 06` on that stack yields `y`; (4) so the bytes encode
+`((a . x) . ((a . y) . y))` although the assembled tree is `((a . x) . ((a . y) . x))`. -/
+theorem finding_L_witness :
+    outcome ((Run.new (some M)).steps (histL.map fun
+      | (.add t, .added _ out) => Step.add (replay out) t
+      | (.add t, _) => Step.add (replay []) t
+      | (.undo k, _) => Step.undo k)) = some (outL, true) ∧
+    verdict (validate (some M) histL) = "invalid-backref" ∧
+    (match TraversePath.traversePath [6] (.pair (.pair A Y) (.pair (.pair A X) Tree.nil)) with
+      | .ok (_, t) => some t
+      | .error _ => none) = some Y ∧
+    assemble (some M) treesL = some (.pair (.pair A X) (.pair (.pair A Y) X)) := by
+  refine ⟨?_, ?_, ?_, ?_⟩ <;> decide +kernel
+
+open Witness in
+/-- **Finding M** (`restore` followed by `add`), recorded run (`INC c10 …`): as for L; `fe 06` is
+written for `x` when the parse stack is `[x, b, (a . y)]` (the `y` was added after the undo of `x`),
+and leads to `y`: the bytes encode `(x . (b . ((a . y) . y)))`, the assembled tree is
+`(x . (b . ((a . y) . x)))`. -/
+theorem finding_M_witness :
+    outcome ((Run.new (some M)).steps (histM.map fun
+      | (.add t, .added _ out) => Step.add (replay out) t
+      | (.add t, _) => Step.add (replay []) t
+      | (.undo k, _) => Step.undo k)) = some (outM, true) ∧
+    verdict (validate (some M) histM) = "invalid-backref" ∧
+    (match TraversePath.traversePath [6] (.pair (.pair A Y) (.pair B (.pair X Tree.nil))) with
+      | .ok (_, t) => some t
+      | .error _ => none) = some Y ∧
+    assemble (some M) treesM = some (.pair X (.pair B (.pair (.pair A Y) X))) := by
+  refine ⟨?_, ?_, ?_, ?_⟩ <;> decide +kernel
+
+open Witness in
+/-- **Finding N** (a node with the sentinel below it used in two additions), recorded run
+(`INC c12 …`): reproduced by the model under the unchecked replay policy, rejected by the validator
+at a back-reference; the assembled tree exists.  (The crate's decoder answers
+`SerializationBackreferenceError` on these bytes: the path runs into an atom.) -/
+theorem finding_N_witness :
+    outcome ((Run.new (some M)).steps (histN.map fun
+      | (.add t, .added _ out) => Step.add (replay out) t
+      | (.add t, _) => Step.add (replay []) t
+      | (.undo k, _) => Step.undo k)) = some (outN, true) ∧
+    verdict (validate (some M) histN) = "invalid-backref" ∧
+    (assemble (some M) treesN).isSome = true := by
+  refine ⟨?_, ?_, ?_⟩ <;> decide +kernel
+
+open Witness in
+/-- the first two steps of the same recorded run are accepted: the rejection concerns the last
+back-reference, not the protocol -/
+theorem finding_L_prefix_accepted : verdict (validate (some M) (histL.take 2)) = "ok" := by
+  decide +kernel
 
 end Clvm.Props.C19
